@@ -2,6 +2,11 @@
 import itertools
 from ..runner import Prop
 from ..prng import Rng
+from .inv_base import InvProp
+from .. import geninv as GI
+
+_INV = InvProp()
+_INV.parts = ("nodes",)
 
 ALPHA = ["a", "b", "~a", "~b"]
 
@@ -36,12 +41,31 @@ class C17(Prop):
             yield {"op": "lists", "lists": files}
             if i % 3 == 0:
                 yield {"op": "ulists", "lists": files}
+        # the node's list is the accumulation of the per-file lists in merge order (with C01)
+        M = 80 if tier == "quick" else 2000
+        apps = ["app_a", "app_b", "app_c", "~app_a", "~app_b", "~app_c", "app_d", "~~x"]
+        for i in range(M):
+            r = Rng(seed, "C17inv", i)
+            c = GI.gen_inventory(r, n_classes=r.range(1, 6), shape=r.choice(["tree", "dag", "cyclic"]), n_nodes=r.range(1, 2))
+            for f in c["files"]:
+                f["content"]["applications"] = [r.choice(apps) for _ in range(r.range(0, 4))]
+            yield c
+
+    def judge(self, req, impl, reply):
+        if req.get("op") == "inventory":
+            return _INV.judge(req, impl, reply)
+        return super().judge(req, impl, reply)
 
     def nontrivial(self, req, impl, reply):
+        if req.get("op") == "inventory":
+            flat = [e for f in req["files"] for e in f["content"].get("applications", [])]
+            return any(e.startswith("~") for e in flat) and any(not e.startswith("~") for e in flat)
         flat = [e for l in req["lists"] for e in l]
         return any(e.startswith("~") for e in flat) and any(not e.startswith("~") for e in flat)
 
     def tags(self, req, impl, reply):
+        if req.get("op") == "inventory":
+            return ["op=inventory"]
         flat = [e for l in req["lists"] for e in l]
         t = ["files=%d" % min(len(req["lists"]), 6), "op=" + req["op"]]
         if impl and "ok" in impl:
